@@ -737,6 +737,9 @@ def run(chk, prog):
         chk.floor("G2", n_ob["G2"], 5000)
 
     check_worker_loop(chk, unit)
+    # W6: "decrement and test for zero" is one atomic step (Task::decrement_number_of_unfinished_parents)
+    from .c08 import check_atomic_wrappers
+    chk.floor("W6", check_atomic_wrappers(chk, prog.library(), rule="W6"), 5)
 
 
 # --------------------------------------------------------------------------------------
@@ -956,3 +959,4 @@ def check_worker_loop(chk, unit):
                 function=drv["qname"], construct="reset and enqueue loop")
     # the counter is declared fresh (zero) before the enqueue loop
     chk.floor("W", 6, 6)
+
